@@ -4334,6 +4334,9 @@ class NameCheckVisitor(node_visitor.ReplacingNodeVisitor):
                 *iterated_value,
                 limit=self.options.get_value_for(UnionSimplificationLimit),
             )
+        # snapshot of the definitions that are live before the loop
+        with self.scopes.subscope() as before_loop_scope:
+            pass
         with self.scopes.subscope() as body_scope:
             with self.scopes.loop_scope():
                 with qcore.override(self, "being_assigned", iterated_value):
@@ -4352,6 +4355,9 @@ class NameCheckVisitor(node_visitor.ReplacingNodeVisitor):
         # phase
         if self.state == VisitorState.collect_names:
             with self.scopes.subscope():
+                # The body is entered from before the loop or from its own end, never
+                # from the else clause or from the code after the loop.
+                self.scopes.combine_subscopes([body_scope, before_loop_scope])
                 with qcore.override(self, "being_assigned", iterated_value):
                     self.visit(node.target)
                 self._generic_visit_list(node.body)
@@ -4369,6 +4375,8 @@ class NameCheckVisitor(node_visitor.ReplacingNodeVisitor):
             Boolability.value_always_true,
             Boolability.type_always_true,
         )
+        with self.scopes.subscope() as before_loop_scope:
+            pass
         with self.scopes.subscope() as body_scope:
             with self.scopes.loop_scope() as loop_scopes:
                 # The "node" argument need not be an AST node but must be unique.
@@ -4381,6 +4389,7 @@ class NameCheckVisitor(node_visitor.ReplacingNodeVisitor):
                 node.test, check_boolability=False
             )
             with self.scopes.subscope():
+                self.scopes.combine_subscopes([body_scope, before_loop_scope])
                 self.add_constraint((node, 2), constraint)
                 self._generic_visit_list(node.body)
 
